@@ -773,3 +773,32 @@ def r_iso_operators_plain(cx):
                "(e.g. a longitude beyond 180 degrees is encoded as another angle)" % (tail, extra[0][0]) if extra else
                "%s does not apply %s" % (tail, ", ".join(missing))), cx.where(extra[0][1]["span"]) if extra else cx.where(f0.d["span"]))
     cx.count("R-ISO-OPERATORS-PLAIN", "functions", n)
+
+
+@rule("R-SETTER-NO-INVENTED", ["C19"])
+def r_setter_no_invented(cx):
+    """`set_xy`, `set_xyz` on a container change the elements they name and leave the others as stored. The specialised
+    implementations of coordinate::set (arrays, slices and vectors of the tuple types) do not build the tuple they store
+    from constants: no NaN or 0 literal appears in a tuple handed to `set_coord` by one of them (`set_coord(i, [x, y, z, NaN])`
+    wipes the epoch of a 4D tuple)."""
+    n = 0
+    for name in sorted(cx.f.lib["fns"]):
+        if "::tests" in name or not name.startswith(("<", "coordinate::set::")) or "coordinate::set::CoordinateSet" not in name:
+            continue
+        tail = name.rsplit("::", 1)[-1]
+        if tail not in ("set_xy", "set_xyz"):
+            continue
+        if name.startswith("coordinate::set::CoordinateSet::"):
+            continue        # the trait defaults read-modify-write (R-DEFAULT-RMW)
+        f = cx.f.fn(name)
+        n += 1
+        bad = []
+        for bb, t in f.calls():
+            if (t.get("callee") or "").endswith("CoordinateSet::set_coord") and len(f.arg_terms(bb)) > 2:
+                v = f._deref(f.arg_terms(bb)[2], f.end_point(bb))
+                mir.walk(v, lambda y: (bad.append(t) if y[0] == "const" and isinstance(y[2], tuple) and y[2][0] == "float" else None) or True)
+        cx.ob("R-SETTER-NO-INVENTED", name.replace("coordinate::", ""), not bad,
+              "%s stores no invented element" % name if not bad else
+              "%s builds the tuple it stores with a constant in it: an element the setter does not name (the epoch of a 4D tuple) "
+              "is overwritten" % name, cx.where(bad[0]["span"]) if bad else cx.where(f.d["span"]))
+    cx.count("R-SETTER-NO-INVENTED", "setters", n)
